@@ -100,7 +100,14 @@ void dsim_scenario() {
     dsim::set_heap_fill(dsim::flip() ? 0xCD : 0x00);
     switch (policy) {
     case 0: { Tracked<cocls::default_storage> s; reuse_sequence<Tracked<cocls::default_storage>>("default", [&](auto fn) { return fn(s); }, false); break; }
-    case 1: { Tracked<cocls::reusable_storage> s; reuse_sequence<Tracked<cocls::reusable_storage>>("reusable", [&](auto fn) { return fn(s); }, true); break; }
+    case 1: {   // between two frames the storage object itself may be moved (move construction + move assignment keep the block: still no new allocation)
+        using S = Tracked<cocls::reusable_storage>; S s;
+        reuse_sequence<S>("reusable", [&](auto fn) {
+            int mv = dsim::choose(3);
+            if (mv == 1) { S tmp(std::move(s)); if (s.capacity()) dsim::fail("C19.reuse", "moved-from reusable_storage still reports capacity %zu", s.capacity()); s = std::move(tmp); }
+            else if (mv == 2) { S &self = s; s = std::move(self); }
+            return fn(s); }, true);
+        break; }
     case 2: { Tracked<cocls::reusable_storage_mtsafe> s; reuse_sequence<Tracked<cocls::reusable_storage_mtsafe>>("reusable_mtsafe(single thread)", [&](auto fn) { return fn(s); }, true); break; }
     case 3: {   // stack storage the way scheduler::start uses it: size learnt in a shared state, block from alloca, heap fall-back
         std::size_t state = 0; int fill = dsim::flip() ? 0xFF : 0x00;
